@@ -212,6 +212,22 @@ func check(c Case) (o h.Outcome) {
 	// I1: no reference to anything outside the components section
 	var outside []string
 	outsideRefs(raw, &outside)
+	if feat["cycle:callback-own-path"] > 0 {
+		// a callback that is the path its own operation is declared under has no finite inlined form: the
+		// reference may stay, and then it names a path of the internalised document, exactly
+		o.Class("cyclic-callback-path-reference")
+		paths, _ := raw.(map[string]any)["paths"].(map[string]any)
+		kept := outside[:0]
+		for _, r := range outside {
+			tok := strings.TrimPrefix(r, "#/paths/")
+			name := strings.ReplaceAll(strings.ReplaceAll(tok, "~1", "/"), "~0", "~")
+			if _, declared := paths[name]; tok != r && declared && !strings.Contains(tok, "/") {
+				continue
+			}
+			kept = append(kept, r)
+		}
+		outside = kept
+	}
 	if len(outside) > 0 {
 		o.Fail("outside-ref:"+refClass(outside[0]), "after InternalizeRefs the document still refers outside its components section: %v\ninternalised=%s", outside, trunc(out))
 		return
@@ -421,6 +437,6 @@ func gen(t *rapid.T) Case {
 	// Chains through external components (a component that is itself a $ref to another
 	// document's component) are the known open finding of C16: they are excluded by
 	// construction so that the search continues behind them; C16_CHAINS=1 puts them back.
-	lay := fsgen.Generate(t, fsgen.Cfg{Absolute: rapid.Bool().Draw(t, "absolute"), NoChains: os.Getenv("C16_CHAINS") == "", ElementChains: true, RelativeTwins: os.Getenv("C16_RELTWINS") != "", AliasChains: true, CallbackPathRefs: rapid.Bool().Draw(t, "cbpathrefs")})
+	lay := fsgen.Generate(t, fsgen.Cfg{Absolute: rapid.Bool().Draw(t, "absolute"), NoChains: os.Getenv("C16_CHAINS") == "", ElementChains: true, RelativeTwins: os.Getenv("C16_RELTWINS") != "", AliasChains: true, CallbackPathRefs: rapid.Bool().Draw(t, "cbpathrefs"), CallbackSelfRefs: rapid.Bool().Draw(t, "cbselfrefs")})
 	return Case{Layout: lay, Entry: rapid.SampledFrom([]string{"uri", "datawithpath"}).Draw(t, "entry")}
 }
